@@ -283,3 +283,6 @@ package types
 //@   ensures expInfl(A, m, step, s, e, true, t, supply) == 0
 //@   reveal expInfl
 //@   prop C19
+
+//@ // ---- declared effects (checked per call instruction by the effect checker; anything not listed is effect-free) ----
+//@ effects DefaultGenesis nondet.time
